@@ -1,11 +1,88 @@
-import FrappyModel.Spec.C02
+import FrappyProofs.Lemmas.WireCore
+import FrappyProofs.Lemmas.ClientOf
+import FrappyProofs.Lemmas.RatWireLaws
 import FrappyModel.Generated.C02
-namespace Frappy.Proofs.C02
-open Frappy Frappy.Datatypes
+/-
+C02 — property theorems (nothing but property theorems and their non-vacuity examples).
 
-/-- the words `BoolType.from_string` knows, as extracted from the source, are the model's -/
-theorem bool_words_table :
+For every float carrier `F` satisfying `Spec.C02.WireLaws`, every datatype tree `dt` with `dt.WF`
+(what the constructors enforce), every valid value `v` (`Spec.C02.Valid`: in the declared value set,
+every scaled leaf reproduced by the grid), under the library laws `B64Law` / `JsonText.loads_dumps` /
+`TextLib.Lawful` (one per library function, tested on the implementation side).
+-/
+set_option linter.unusedSectionVars false
+namespace Frappy.Props.C02
+open Frappy.Spec.C01 Frappy.Spec.C02 Frappy.Datatypes Frappy.Lemmas.C02
+open PVal (pyEq)
+
+variable {F : Type} [FloatOps F] [WireLaws F]
+
+/-! ## the exported form is strict JSON of the prescribed kind -/
+
+theorem export_kind (dt : DType F) (hwf : dt.WF) (v : PVal F) (hv : Valid dt v) (hb : B64Law) :
+    ∃ j, exportValue dt v = .ok j ∧ KindOK dt j ∧ StrictJ j := by
+  obtain ⟨j, _, h1, h2, h3, _⟩ := wire_core dt v hwf hv hb
+  exact ⟨j, h1, h2, h3⟩
+
+/-! ## importing it again on the node yields a value equal to `v` -/
+
+theorem wire_roundtrip_node (dt : DType F) (hwf : dt.WF) (v : PVal F) (hv : Valid dt v) (hb : B64Law) :
+    ∃ v', (exportValue dt v >>= importValue dt) = .ok v' ∧ pyEq v' v = true := by
+  obtain ⟨j, v', h1, _, _, _, h4, h5⟩ := wire_core dt v hwf hv hb
+  exact ⟨v', by rw [h1]; exact h4, h5⟩
+
+/-- … through the JSON text: any `dumps`/`loads` pair that reads back what it wrote for strict values -/
+theorem wire_roundtrip_text (T : JsonText F) (dt : DType F) (hwf : dt.WF) (v : PVal F) (hv : Valid dt v) (hb : B64Law) :
+    ∃ j v', exportValue dt v = .ok j ∧ T.loads (T.dumps j) = some j ∧ importValue dt j = .ok v' ∧ pyEq v' v = true := by
+  obtain ⟨j, v', h1, _, h3, _, h4, h5⟩ := wire_core dt v hwf hv hb
+  exact ⟨j, v', h1, T.loads_dumps j h3, h4, h5⟩
+
+/-! ## … and on a client that rebuilt the datatype from the node's description -/
+
+/-- `import_value` of the rebuilt datatype is `import_value` of the node's datatype -/
+theorem client_imports_alike (dt cdt : DType F) (hc : clientOf dt = some cdt) (j : JVal F) :
+    importValue cdt j = importValue dt j := import_clientOf dt cdt j hc
+
+theorem wire_roundtrip_client (T : JsonText F) (dt cdt : DType F) (hwf : dt.WF) (hc : clientOf dt = some cdt)
+    (v : PVal F) (hv : Valid dt v) (hb : B64Law) :
+    ∃ j v', exportValue dt v = .ok j ∧ T.loads (T.dumps j) = some j ∧ importValue cdt j = .ok v' ∧ pyEq v' v = true := by
+  obtain ⟨j, v', h1, h2, h4, h5⟩ := wire_roundtrip_text T dt hwf v hv hb
+  exact ⟨j, v', h1, h2, by rw [client_imports_alike dt cdt hc]; exact h4, h5⟩
+
+/-! ## constants of the source -/
+
+/-- the words `BoolType.from_string` knows and the `json.dumps` settings of `encode_msg_frame` (none: `allow_nan`
+stays on, so strictness is a property of the exported values — `export_kind` — not of the encoder) -/
+theorem source_tables :
     Generated.C02.boolTrueWords = boolTrueWords ∧ Generated.C02.boolFalseWords = boolFalseWords ∧
     Generated.C02.dumpsKeywords = [] := by decide
 
-end Frappy.Proofs.C02
+/-! ## non-vacuity: a concrete tree and value over the exact carrier -/
+
+/-- `struct {a: tuple(scaled 1/10 in [0,10]), b: array of enum, c: string}` with `c` optional -/
+def exTree : DType Rat :=
+  .struct [("a", .tuple [.scaled (1/10) 0 10 (1/10) 0]), ("b", .array (.enum [("off", 0), ("on", 1)]) 0 3),
+    ("c", .string 0 5 true)] ["c"] false
+
+def exValue : PVal Rat := .dict [("b", .tuple [.enum "on" 1, .enum "off" 0]), ("a", .tuple [.float (33/10)])]
+
+theorem exTree_wf : exTree.WF := by
+  have : exTree.wfB = true := by decide +kernel
+  simp [exTree, DType.WF, DType.WFList, DType.WFFields, DType.namesOK, FloatOps.isFinite, DType.positive, DType.nonneg,
+    FloatOps.isNaN, FloatOps.le, FloatOps.lt, FloatOps.abs, FloatOps.maxFinite, FloatOps.ofInt, RatCarrier.big]
+  decide +kernel
+
+theorem exValue_valid : Valid exTree exValue := by
+  have : validB exTree exValue = true := by decide +kernel
+  exact of_decide_eq_true this
+
+example : (match exportValue exTree exValue with
+    | .ok j => kindOKB exTree j && strictB j
+    | _ => false) = true := by decide +kernel
+
+example (hb : B64Law) : ∃ v', (exportValue exTree exValue >>= importValue exTree) = .ok v' ∧ pyEq v' exValue = true :=
+  wire_roundtrip_node exTree exTree_wf exValue exValue_valid hb
+
+example : ∃ cdt, clientOf exTree = some cdt := ⟨_, rfl⟩
+
+end Frappy.Props.C02
